@@ -265,11 +265,11 @@ class Explorer:
         self.max_depth = max_depth
         self.cache = {}
 
-    def run(self, qualname, setup, summaries=None, key=None, no_inline=(), hooks=None):
+    def run(self, qualname, setup, summaries=None, key=None, no_inline=(), hooks=None, models=None):
         ck = (qualname, key)
         if key is not None and ck in self.cache:
             return self.cache[ck]
-        I = Interp(self.prog, summaries={**self.summaries, **(summaries or {})}, max_depth=self.max_depth)
+        I = Interp(self.prog, models=models, summaries={**self.summaries, **(summaries or {})}, max_depth=self.max_depth)
         I.no_inline |= set(no_inline)
         if hooks:
             I.method_hooks.update(hooks)
